@@ -424,6 +424,12 @@ def run(ctx):
     broken = ctx.translate()
     res = ctx.coq_props()
     proof_ok = res['ok'] and not broken
+    if not quick and proof_ok and hasattr(ctx, 'coqchk'):
+        t_chk = time.time()
+        if not ctx.coqchk():
+            proof_ok = False
+            res['audit'].append('coqchk rejected the compiled closure of Props/%s.vo' % ctx.pid)
+        ctx.log("coqchk took %.0fs" % (time.time() - t_chk))
     binp, blog = ctx.harness('release')
     if binp is None:
         ctx.violation("harness does not build against the current tree (correspondence cannot run)", dict(build_log=blog[-2000:]), found_input=False)
